@@ -31,6 +31,20 @@ R = Result('one case = one request (2D/3D, bits_per_voxel as int/float/str, bloc
            'non-trivial = distinct request that is valid, or has exactly one free parameter, or is a one-step near-miss '
            '(one parameter +-1, x2, /2) of a valid setting; all 344 3D + 84 2D valid settings are enumerated exhaustively')
 rng = random.Random(a.seed + 1900)
+_quota = {}
+_violation = R.violation
+
+
+def violation(kind, inp, detail, finding_key=None, _group=None):
+    """at most 16 recorded violations per (kind, level) so that one broken check cannot hide the others"""
+    g = (kind, 'file' if 'route' in inp else 'resolution')
+    _quota[g] = _quota.get(g, 0) + 1
+    R.count(f'VIOLATIONS {g[0]}/{g[1]}')
+    if _quota[g] <= 16 or finding_key:
+        _violation(kind, inp, detail, finding_key)
+
+
+R.violation = violation
 THOROUGH = a.tier == 'thorough' or a.search
 RATES = [Fraction(1, 4), Fraction(1, 2)] + [Fraction(k) for k in (1, 2, 4, 8, 16, 32)]
 BITS = 32768
@@ -279,8 +293,11 @@ for k in keys:
     v = value_of(bpv)
     if real[0] == 'ok':
         _, q, dims = real
-        if not wf(d2, q, dims) or not supported(d2, q):
+        if not wf(d2, q, dims):
             R.violation('oracle', inp, f'accepted as rate {q} blockshape {dims}, which is not a well-formed configuration')
+        elif not supported(d2, q):
+            R.violation('oracle', inp, f'accepted as rate {q} blockshape {dims}: a 2D unit of {16 * q} bits, below the 9 bits '
+                        'ZFP needs (zfpy corrupts the heap)')
         else:
             kept = all(bs[i] == -1 or dims[i] == bs[i] for i in range(3)) and v is not None and (v == -1 or q == rate_of(v))
             if not kept:
@@ -372,6 +389,7 @@ def check_file(route, out, expect):
         return f'one block is not 4096 bytes of whole units (unit {s.ub} bytes)'
     if expect is not None and (s.rate, s.bs) != expect:
         return f'header rate {s.rate} blockshape {s.bs}, expected {expect}'
+    R.count('corr:rate code of a written file' if MODEL_CODE is not None else 'rate code not compared (no model)')
     if MODEL_CODE is not None and MODEL_CODE[s.rate] != s.rate_code:
         return f'CORR rate code in the header {s.rate_code}, hand model hdr_rate_code gives {MODEL_CODE[s.rate]}'
     if len(s.data) != 4096 * s.ndb or s.shape_pad[0] * s.shape_pad[1] * s.shape_pad[2] * s.rate / 8 != len(s.data):
@@ -397,21 +415,32 @@ CHILD = r'''
 import sys, os, json
 sys.path.insert(0, %r)
 from hz import *
-sgy, out, bpv, bs = sys.argv[1], sys.argv[2], eval(sys.argv[3]), eval(sys.argv[4])
+route, src, out, bpv, bs = sys.argv[1], sys.argv[2], sys.argv[3], eval(sys.argv[4]), eval(sys.argv[5])
 try:
-    write_segy_sgz(sgy, out, bpv=bpv, blockshape=bs)
+    if route == 'numpy':
+        write_numpy_sgz(out, np.load(src), bpv=bpv, blockshape=bs)
+    else:
+        write_segy_sgz(src, out, bpv=bpv, blockshape=bs)
     print('WRITTEN')
 except Exception as e:
     print('RAISED', exc_class(e), 'created' if os.path.exists(out) else 'not-created')
 ''' % os.path.join(os.path.dirname(os.path.abspath(__file__)), '..')
+npy3 = os.path.join(tmp, 'c.npy')
+np.save(npy3, cube)
+MAX_CHILDREN = 40 if THOROUGH else 12
 
 try:
     nfile = 0
+    nchild = {'numpy': 0, 'segy3d': 0, 'segy2d': 0}
     seen = set()
     # a sample of settings that must be refused, through the converters
-    bad = [k for k in keys if requests[k][3] and completions(*requests[k][:3])[1] == []]
-    rng.shuffle(bad)
-    for k in bad[:(1500 if THOROUGH else 160)]:
+    bad = [k for k in keys if completions(*requests[k][:3])[1] == [] and max(abs(x) for x in k[2]) <= 2 ** 17]
+    bad_free = [k for k in bad if completions(*requests[k][:3])[0] == 1]      # one parameter free: the D12 class
+    bad_full = [k for k in bad if completions(*requests[k][:3])[0] != 1]
+    rng.shuffle(bad_free)
+    rng.shuffle(bad_full)
+    nb = 750 if THOROUGH else 90
+    for k in bad_free[:nb] + bad_full[:nb]:
         d2, bpv, bs, _ = requests[k]
         file_cases.append(('segy2d' if d2 else rng.choice(['numpy', 'numpy', 'segy3d']), d2, bpv, bs))
     known_d13_file = False
@@ -428,16 +457,22 @@ try:
         expect = comps[0] if (ok_req and len(comps) == 1) else None
         R.case(('file',) + ck, nontrivial=bool(comps) or n_free == 1,
                sample={'converter': inp, 'expected': str(expect)} if nfile % 97 == 1 else None)
-        risky = d2 and reals.get(canon(d2, bpv, bs), real_resolve(d2, bpv, bs))[0] == 'ok' and \
-            reals.get(canon(d2, bpv, bs), real_resolve(d2, bpv, bs))[1] < 1
+        rr = reals.get(canon(d2, bpv, bs)) or real_resolve(d2, bpv, bs)
+        # the code accepts something that is not a well-formed supported configuration (never on a correct tree):
+        # zfpy may corrupt the heap (2D below 1 bit, non-dyadic or negative rates) -> child process, a bounded number
+        risky = rr[0] == 'ok' and not (wf(d2, rr[1], rr[2]) and supported(d2, rr[1]))
+        if risky and nchild[route] >= MAX_CHILDREN // 3:
+            R.count('file:skipped (accepted ill-formed setting; child budget used)')
+            continue
         if risky:
-            # the code accepts a 2D setting below 1 bit: zfpy may corrupt the heap -> child process
-            p = subprocess.run([sys.executable, '-c', CHILD, sgy2, out, repr(bpv), repr(bs)], stdout=subprocess.PIPE,
+            nchild[route] += 1
+            src = {'numpy': npy3, 'segy3d': sgy3, 'segy2d': sgy2}[route]
+            p = subprocess.run([sys.executable, '-c', CHILD, route, src, out, repr(bpv), repr(bs)], stdout=subprocess.PIPE,
                                stderr=subprocess.DEVNULL, text=True, env=dict(os.environ, PYTHONHASHSEED='0'))
             last = (p.stdout.strip().splitlines() or [''])[-1]
             if p.returncode != 0 or not last:
                 R.violation('oracle', inp, f'conversion neither raised nor finished: child process exit {p.returncode} '
-                            '(2D below 1 bit per voxel: zfpy corrupts the heap)')
+                            f'(accepted as rate {rr[1]} blockshape {rr[2]}; zfpy corrupts the heap)')
                 R.count('file:crash')
                 if os.path.exists(out):
                     os.remove(out)
@@ -484,5 +519,8 @@ finally:
     shutil.rmtree(tmp, ignore_errors=True)
 
 R.notes.append('valid settings enumerated: 344 (3D) + 84 (2D, of which 27 below 1 bit: D13); the int/float kind of the returned '
-               'rate is not compared (4 == 4.0); exact rational arithmetic of the model agreed with binary64 on every case')
+               'rate is not compared (4 == 4.0)')
+if not a.no_model and not any(v['kind'] == 'corr' for v in R.violations):
+    R.notes.append('exact rational arithmetic of the model agreed with CPython binary64 arithmetic (outcome, rate, blockshape, '
+                   'exception class) on every case of the grid')
 R.write(a.out)
